@@ -30,6 +30,7 @@ var alsoRuns = map[string][]string{
 	"C07": {"C09"},        // the marked entry lands in a store that honours its contract
 	"C02": {"C03"},        // folding relies on complete state serialization
 	"C11": {"C17"},        // ended sessions must leave the session table, otherwise their secret keeps working
+	"C09": {"C18"},        // entries must be encoded/decoded field by field without loss (C09's L5 is C18.F2)
 	"C06": {"C14"},        // the state invariants I1-I3 that justify look-ups in C06.G3 are preserved iff C14's pairing rules hold
 	"C12": {"C14"},        // recipient sets are computed from the membership relations whose pairing C14 checks
 	"C10": {"C07"},        // the tombstone written for a message of death must keep the client message id
